@@ -344,6 +344,48 @@ def kde_many_samples(ck, seed):
                        "%d float32 samples around %g: integrates to %.4f, log-density differs from the float64 formula by %.3g" % (N, centre, tot, err), case)
 
 
+def mixture_sampler_follows_density(ck, seed):
+    """the MADE mixture with a floor on its standard deviations that matters (epsilon = 0.5 and 2, as the constructor allows): what
+    sample() draws has the mean and standard deviation of the density log_prob describes (one feature: quadrature)"""
+    import numpy as np
+    from nflows.nn.nde.made import MixtureOfGaussiansMADE
+    for eps_ in (0.5, 2.0, 1e-2):
+        for rep in range(2):
+            torch.manual_seed(seed % 100000 + 17 + rep)
+            r = attempt(lambda: MixtureOfGaussiansMADE(features=1, hidden_features=8, context_features=None, num_blocks=1, num_mixture_components=3,
+                                                       epsilon=eps_, custom_initialization=True))
+            if r[0] != "ok":
+                continue
+            m = r[1].eval()
+            with torch.no_grad():
+                for prm in m.parameters():
+                    prm.add_(torch.randn(prm.shape) * 0.7)
+                xs = torch.linspace(-40.0, 40.0, 16001)[:, None]
+                lp = attempt(m.log_prob, xs)
+                torch.manual_seed(seed % 100000 + 23 + rep)
+                smp = attempt(m.sample, 60000)
+            ck.case(("mog-sampler-density", eps_, rep), nontrivial=True)
+            if lp[0] != "ok" or smp[0] != "ok":
+                continue
+            p_ = np.exp(lp[1].double().numpy().reshape(-1))
+            xg = xs.double().numpy().reshape(-1)
+            mass = float(np.trapezoid(p_, xg))
+            mean_d = float(np.trapezoid(p_ * xg, xg)) / mass
+            sd_d = math.sqrt(max(float(np.trapezoid(p_ * (xg - mean_d) ** 2, xg)) / mass, 0.0))
+            sv = smp[1].double().reshape(-1)
+            mean_s, sd_s = float(sv.mean()), float(sv.std())
+            # six standard errors of the sample mean and of the sample variance, the latter from the density's fourth central moment
+            # (a rare far component makes the variance estimate noisy: the tolerance follows the density, not a fixed percentage)
+            mu4 = float(np.trapezoid(p_ * (xg - mean_d) ** 4, xg)) / mass
+            se_var = math.sqrt(max(mu4 - sd_d ** 4, 0.0) / sv.numel())
+            se_mean = sd_d / math.sqrt(sv.numel())
+            if abs(mass - 1) > 1e-3 or abs(sd_s ** 2 - sd_d ** 2) > 6 * se_var + 1e-3 * sd_d ** 2 or abs(mean_s - mean_d) > 6 * se_mean + 1e-3 * sd_d:
+                ck.finding("sampling:MixtureOfGaussiansMADE:samples-do-not-follow-log_prob",
+                           "epsilon %g: 60000 draws have mean %.4f / std %.4f, the density exp(log_prob) has mean %.4f / std %.4f (mass %.5f)"
+                           % (eps_, mean_s, sd_s, mean_d, sd_d, mass), {"search": "mog-sampler-density", "epsilon": eps_, "rep": rep, "seed": seed})
+                break
+
+
 def run(tier, seed):
     ck = Check("C05", tier, seed, areas=[], gen_groups=["Dist", "Nonlin", "DistBase"])
     ck.rule = ("Bernoulli: exact summation over {0,1}^D (D up to 8, 1-D and 2-D event shapes); standard / diagonal / conditional "
@@ -356,6 +398,7 @@ def run(tier, seed):
     ck.sample({"generated": "Gen/Dist.v: sn_neg_energy_term, sn_log_z, cdn_norm_input, bern_log_prob_term, flow_log_prob"})
     search(ck, tier, seed)
     kde_many_samples(ck, seed)
+    mixture_sampler_follows_density(ck, seed)
     return ck.finish()
 
 
